@@ -8,6 +8,15 @@
        for either sign of the shift and a bounded (finite) output.
    That the statements after the optimisation loop of the real routines (and the loop bodies of the two
    Gerchberg-Saxton routines) are these models is proved of the traced code on every run: coq/tie/C07_Tie*.v. *)
+(* NOTE on the `*_consistent` theorems (C07_sgd_consistent, C07_gs_torch_consistent, C07_multicolor_consistent and the first
+   conjunct of C07_multiplane_consistent): they hold by unfolding, because the MODEL epilogue is written as (h, P h).  Their
+   content is that the model is the right one, and that is what the tie lemmas prove on every run against separately traced
+   terms (sgd_epilogue_traced, gst_epilogue_traced, mc_reconstruction_traced, mp_traced, with all propagate_beam settings spelled
+   out).  The non-definitional statements are: unit amplitude, the NumPy Gerchberg-Saxton theorems (crop o pad, state stays
+   padded, unit amplitude through pad/crop), the 3-D variant (sum of L unit phasors), the quantiser, gcf(|z|, arg z) = z,
+   the double-phase and global-phase theorems and the two refutations.
+   C07_multiplane_unit has the hypothesis H = gcf_f rone phi; that the loop of gradient_descent() builds its hologram this way
+   (default amplitude) is proved of the traced loop body in coq/tie/C07_TieMP.v (mp_loop_hologram_traced). *)
 From Coq Require Import Reals ZArith Bool Arith.
 From Coquelicot Require Import Complex.
 From OdakV Require Import Base.RealAux Wave.Fields Wave.Kernels C07.Model C07.Lemmas.
@@ -51,6 +60,23 @@ Proof. exact gs_numpy_unit. Qed.
 Theorem C07_gs_numpy_resolution : forall h w (Pf Pb : fld -> fld) n target H0,
   let r := gs_numpy h w Pf Pb n target H0 in clip h w (fst r) = fst r /\ clip h w (snd r) = snd r.
 Proof. exact gs_numpy_resolution. Qed.
+
+(* ---- Gerchberg-Saxton 3-D, NumPy (repaired crop window, 'no constraint'): returns the hologram only *)
+Theorem C07_gs3d_resolution : forall h w L (Pf Pb : nat -> fld -> fld) n targets H0,
+  clip h w (gs3d h w L Pf Pb n targets H0) = gs3d h w L Pf Pb n targets H0.
+Proof. exact gs3d_resolution. Qed.
+
+Theorem C07_gs3d_sum_of_phasors : forall h w L (Pf Pb : nat -> fld -> fld) n targets H0 i j, (i < h)%nat -> (j < w)%nat ->
+  exists phi : nat -> R, gs3d h w L Pf Pb (S n) targets H0 i j = csum L (fun d => gcf 1 (phi d)).
+Proof. exact gs3d_sum_of_phasors. Qed.
+
+Theorem C07_gs3d_finite : forall h w L (Pf Pb : nat -> fld -> fld) n targets H0 i j, (i < h)%nat -> (j < w)%nat ->
+  Cmod (gs3d h w L Pf Pb (S n) targets H0 i j) <= INR L.
+Proof. exact gs3d_bounded. Qed.
+
+Theorem C07_gs3d_single_plane_unit : forall h w (Pf Pb : nat -> fld -> fld) n targets H0,
+  phase_only h w (gs3d h w 1 Pf Pb (S n) targets H0).
+Proof. exact gs3d_single_plane_unit. Qed.
 
 Theorem C07_crop_inverts_pad : forall h w u, cropf h w (padf h w u) = clip h w u.
 Proof. exact crop_pad. Qed.
